@@ -499,6 +499,32 @@ _OWN_LEAVES = {
     "tul": (["m", "n", "o", "p"], []),
     "sll": (["s1", "s2", "s1"], []),
 }
+# lyd_value_validate / lyd_value_compare catalogue: schema path -> (valid, invalid when stored, well-formed but not resolvable
+# in the data tree = fails only in the validate step when a context node is given)
+_OWN_VALS = {
+    "/a:c/i8": (["3", "-5", " 7 ", "+5"], ["200", "x", "", "1e3"], []),
+    "/a:c/s": (["abc", "a"], ["", "ABC", "toolongvalue"], []),
+    "/a:c/e": (["one", "three"], ["four", ""], []),
+    "/a:c/u": (["5", "x", "abc"], ["toolong", "ab"], []),
+    "/a:c/idr": (["a:id1", "a:id2"], ["a:idb2", "x:id1", "", "a:"], []),
+    "/a:c/lr": (["a", "b"], [], ["dangling", "zz"]),
+    "/a:c/ul": (["1", "9"], ["256", "u"], []),
+    "/a:ty/ii": (["/a:top", "/a:c/a:i8", "/a:tul[.='m']", "/a:l[a:k1='a'][a:k2='1']"], ["/a:nope", "a:top", "/a:c/", "/a:l[k9='1']", "", "/x:top", "/a:tul[.='m'"],
+                 ["/a:c/a:w", "/a:tul[.='c17-none']", "/a:l[a:k1='zz'][a:k2='9']/a:v", "/a:ul2[a:k='none']"]),
+    "/a:ty/iin": (["/a:top", "/a:tul[.='none']", "/a:l[a:k1='zz'][a:k2='9']"], ["/a:nope", "", "/a:l[k9='1']"], []),
+    "/a:ty/lrt": (["t", "a"], [], ["c17-none", ""]),
+    "/a:ty/lrn": (["t", "anything"], [], []),
+    "/a:ty/ulr": (["5", "t"], ["300x"], ["c17-none", "zzz"]),
+    "/a:ty/uii": (["none", "/a:top"], ["/a:nope", "nine", ""], ["/a:tul[.='c17-none']", "/a:c/a:w"]),
+    "/a:ty/bn": (["YQ==", "YWJj"], ["YQ=", "!!!!", "YWJjZGVm"], []),
+    "/a:ty/dc": (["1.5", "10", "-1.00"], ["11", "1.234", "x", ""], []),
+    "/a:ty/bt": (["b0", "b2 b0", ""], ["b9", "b0 b0"], []),
+    "/a:ty/bo": (["true", "false"], ["True", "1", ""], []),
+    "/a:ty/em": ([""], ["x"], []),
+    "/a:ty/idl": (["a:id1"], ["a:idb2", "b:id1"], []),
+    "/a:top": (["t", ""], [], []),
+}
+
 _OWN_C_LEAVES = ["i8", "s", "e", "lr", "u", "idr", "m", "w", "sl", "ul", "ca1", "ca2", "cb1"]
 _OWN_TOP_LEAVES = ["top", "tul", "sll"]
 
@@ -671,6 +697,14 @@ class _OwnDoc:
         if state and rng.random() < 0.2:
             for _ in range(rng.randrange(1, 4)):
                 parts.append("<sll %s>%s</sll>" % (_NSA, rng.choice(["s1", "s2"])))
+        if rng.random() < 0.3:
+            ty = []
+            for nm, vals in (("ii", ["/a:top", "/a:tul[.='m']", "/a:c/a:i8"]), ("iin", ["/a:tul[.='none']"]), ("lrt", ["t", "a", "c17-none"]),
+                             ("lrn", ["free"]), ("ulr", ["5", "t", "zz"]), ("uii", ["none", "/a:top"]), ("bn", ["YQ=="]), ("dc", ["1.5"]),
+                             ("bt", ["b0 b2"]), ("bo", ["true"]), ("em", [""]), ("idl", ["a:id1"])):
+                if rng.random() < 0.35:
+                    ty.append("<%s%s>%s</%s>" % (nm, ' xmlns:a="urn:a"' if nm in ("ii", "iin", "uii", "idl") else "", rng.choice(vals), nm))
+            parts.append("<ty %s>%s</ty>" % (_NSA, "".join(ty)))
         if rng.random() < 0.3:
             parts.append("<bc %s><bl>b</bl>%s</bc>" % (_NSB, "".join("<bll>%d</bll>" % i for i in rng.sample(range(5), rng.randrange(0, 3)))))
         if rng.random() < 0.08:
@@ -862,6 +896,26 @@ class Ownership:
             return ["chg", N(), _hx(dg.leafv(nm, 0.3))]
         if k == "chgmeta":
             return ["chgmeta", N(), rng.randrange(3), _hx(rng.choice(["n2", "7", "", "toolongnote", "x", "replace", "none"]))]
+        if k == "vval":
+            sp = rng.choice(list(_OWN_VALS))
+            ok, ko, unres = _OWN_VALS[sp]
+            v = rng.choice(rng.choice([x for x in (ok, ko, unres, unres) if x]))
+            return ["vval", rng.choice(["~", N(), N(), N()]), rng.choice("~~001"), _hx(sp), _hx(v), rng.choice([0, 1, 1, 2, 3, 3, 5])]
+        if k == "vcmp":
+            ok, ko, unres = _OWN_VALS[rng.choice(list(_OWN_VALS))]
+            return ["vcmp", N(), _hx(rng.choice(ok + ko + unres))]
+        if k == "chgcanon":
+            return ["chgcanon", N(), N()]
+        if k == "chgbin":
+            return ["chgbin", N(), _hx(rng.choice(["abc", "ABC", "", "toolongvalue", "z", "YQ=="]))]
+        if k in ("freemeta", "freeattr"):
+            return [k, N(), rng.randrange(4), rng.choice("sssa")]
+        if k == "dupmeta":
+            return ["dupmeta", N(), rng.randrange(3), N()]
+        if k == "anystr":
+            return ["anystr", N()]
+        if k == "anycopy":
+            return ["anycopy", N(), rng.choice(["~", N(), N()])]
         if k == "dup":
             opts = rng.choice([0, _DUP_REC, _DUP_REC, _DUP_REC | _DUP_FLAGS, _DUP_PARENTS, _DUP_PARENTS | _DUP_REC, _DUP_NO_META | _DUP_REC,
                                0x10, 0x20 | _DUP_REC, 0x40 | _DUP_REC, 0x7f, 0x80, 0xffffffff])
@@ -904,7 +958,8 @@ class Ownership:
 
     KINDS = (["parse"] * 6 + ["parsej"] * 2 + ["parsep"] * 2 + ["parseop"] * 2 + ["reply"] + ["term"] * 4 + ["inner"] * 2 + ["list"] * 2 +
              ["list2"] * 2 + ["any"] * 4 + ["opaq"] * 2 + ["meta"] * 3 + ["attr"] + ["path"] * 6 + ["ins"] * 8 + ["unlink"] * 3 + ["free"] +
-             ["freen"] * 3 + ["freesib"] + ["chg"] * 3 + ["chgmeta"] + ["dup"] * 5 + ["merge"] * 5 + ["diff"] * 4 + ["apply"] * 4 + ["rev"] * 2 +
+             ["freen"] * 3 + ["freesib"] + ["chg"] * 3 + ["chgmeta"] + ["vval"] * 5 + ["vcmp"] * 2 + ["chgcanon", "chgbin"] + ["freemeta"] * 2 +
+             ["freeattr"] * 2 + ["dupmeta", "anystr", "anycopy", "anycopy"] + ["dup"] * 5 + ["merge"] * 5 + ["diff"] * 4 + ["apply"] * 4 + ["rev"] * 2 +
              ["dmerge"] * 2 + ["val"] * 3 + ["valmod"] + ["valop"] + ["impl"] * 2 + ["xfind"] * 2 + ["print"] * 2 + ["lys"] * 2)
 
     # ---- fixed scripts: the deliberately failing calls, one construct per case ------------------------------------------
@@ -921,6 +976,8 @@ class Ownership:
             ("merge-destruct-einval-source-not-consumed",
              [P("0", '<top %s>t</top>' % A, 0, _P_ONLY), P("1", '<top %s>u</top>' % A, 1, _P_ONLY), ["merge", 0, 1, _MERGE_DESTRUCT, "s"]]),
             ("parse-multi-error-opaq-child-assert", [P("0", '<l %s><zz/><k1>b</k1><v>v1</v></l>' % A, 0, 393216, _V_MULTI)]),
+            ("print-json-fail-open-set-leak",
+             [['parse', '0', 'x', '0', '0', '3c756c3220786d6c6e733d2275726e3a61223e3c6b3e613c2f6b3e3c763e613c2f763e3c2f756c323e3c6c20786d6c6e733d2275726e3a61223e3c6b313e613c2f6b313e3c6b323e323c2f6b323e3c2f6c3e3c747920786d6c6e733d2275726e3a61223e3c626e3e59513d3d3c2f626e3e3c62743e62302062323c2f62743e3c656d3e3c2f656d3e3c2f74793e3c6320786d6c6e733d2275726e3a61223e3c736c3e7a3c2f736c3e3c756c3e343c2f756c3e3c69383e3130303c2f69383e3c756c3e323c2f756c3e3c6f6c3e3c6b3e783c2f6b3e3c2f6f6c3e3c6d3e313c2f6d3e3c756c3e333c2f756c3e3c773e773c2f773e3c756c3e313c2f756c3e3c6361313e313c2f6361313e3c6f6c3e3c6b3e7a3c2f6b3e3c763e363c2f763e3c2f6f6c3e3c61642f3e3c2f633e', '0'], ['parse', '0', 'x', '0', '0', '3c6320786d6c6e733d2275726e3a61223e3c6c723e623c2f6c723e3c6f6c3e3c6b3e713c2f6b3e3c763e373c2f763e3c2f6f6c3e3c736c3e783c2f736c3e3c61643e3c782f3e3c2f61643e3c69383e373c2f69383e3c653e6f6e653c2f653e3c756c3e393c2f756c3e3c736c3e7a7a3c2f736c3e3c736c3e7a3c2f736c3e3c756c3e313c2f756c3e3c756c3e333c2f756c3e3c733e613c2f733e3c753e783c2f753e3c2f633e3c736c6c20786d6c6e733d2275726e3a61223e73323c2f736c6c3e3c6c20786d6c6e733d2275726e3a61223e3c6b313e623c2f6b313e3c6b323e333c2f6b323e3c2f6c3e3c746f7020786d6c6e733d2275726e3a612220786d6c6e733a613d2275726e3a612220613a6e6f74653d226e74223e6d3c2f746f703e3c74756c20786d6c6e733d2275726e3a61223e6d3c2f74756c3e3c6b6c20786d6c6e733d2275726e3a61223e3c613e323c2f613e3c2f6b6c3e3c626320786d6c6e733d2275726e3a62223e3c626c3e623c2f626c3e3c626c6c3e343c2f626c6c3e3c626c6c3e323c2f626c6c3e3c2f62633e3c736c6c20786d6c6e733d2275726e3a61223e73313c2f736c6c3e3c736c6c20786d6c6e733d2275726e3a61223e73323c2f736c6c3e3c6b6c20786d6c6e733d2275726e3a61223e3c613e313c2f613e3c2f6b6c3e3c6b6c20786d6c6e733d2275726e3a61223e3c613e323c2f613e3c2f6b6c3e3c74756c20786d6c6e733d2275726e3a61223e703c2f74756c3e3c74756c20786d6c6e733d2275726e3a61223e6e3c2f74756c3e', '1'], ['diff', '0', '1', '0', '4'], ['rev', '4', '5'], ['print', '5.2', 'j', '65']]),
             ("merge-destruct-cb-fail-frees-target",
              [P("0", '<top %s>t</top>' % A, 0, _P_ONLY), P("0", '<tul %s>n</tul><tul %s>m</tul>' % (A, A), 1, _P_ONLY),
               ["merge", 0, 1, _MERGE_DESTRUCT, "m", 1, "~"]]),
@@ -1022,6 +1079,53 @@ class Ownership:
                 case(["unlink", "1.1", 5], ["merge", 0, 5, opts, how])
                 case(["unlink", "0.9", 5], ["merge", 5, 1, opts, how])
                 case(["merge", 4, 1, opts, how], ["merge", 4, 0, opts, how])
+        # temporaries: lyd_value_validate / lyd_value_compare for every type family - valid, invalid when stored, and well-formed
+        # but unresolvable (fails in the validate step only with a context node) - without a context node, with one in a tree that
+        # holds the target and with one in a tree that does not; with and without the optional outputs
+        tydoc = ('<ty %s xmlns:a="urn:a"><ii>/a:top</ii><lrt>t</lrt><ulr>t</ulr><uii>none</uii><bn>YQ==</bn><dc>1.5</dc><bt>b0</bt><bo>true</bo><em/>'
+                 '<idl>a:id1</idl><lrn>x</lrn><iin>/a:tul[.=\'none\']</iin></ty><top %s>t</top><tul %s>m</tul><l %s><k1>a</k1><k2>1</k2></l>'
+                 '<c %s><i8>11</i8><lr>a</lr><s>abc</s><e>one</e><u>x</u><idr xmlns:a="urn:a">a:id1</idr><ul>1</ul></c>' % ((_NSA,) * 5))
+        VB = [P("0", tydoc, 0, _P_ONLY), P("0", '<c %s><s>abc</s></c>' % _NSA, 1, _P_ONLY), P("1", tydoc, 2, _P_ONLY)]
+        for sp, (ok, ko, unres) in _OWN_VALS.items():
+            cmds = []
+            for v in ok + ko + unres:
+                for cn in ("~", "0.0", "1.1", "2.0"):
+                    for ctx, fl in (("0", 3), ("~", 0), ("0", 1)):
+                        cmds.append(["vval", cn, ctx, h(sp), h(v), fl])
+            case(*cmds, setup=VB)
+        allv = sorted({v for ok, ko, unres in _OWN_VALS.values() for v in ok + ko + unres})
+        for i in range(0, 22, 3):
+            case(*[["vcmp", "0.%d" % j, h(v)] for j in (i, i + 1, i + 2) for v in allv], setup=VB)
+        case(*[[cmd, "0.%d" % i, x] for i in range(22) for cmd, x in (("chgbin", h("abc")), ("chgbin", h("ABCDEFGH")), ("chgcanon", "0.%d" % i),
+                                                                      ("chgcanon", "2.%d" % i), ("chg", h("c17-none")), ("chg", h("/a:tul[.='zz']")))],
+             setup=VB)
+        # chains: after freeing element k of a chain of n metadata / attributes exactly the other n-1 remain, in order (single),
+        # or the first k (with the following ones); k = every position, n = 1..4; the same through unlink / free of siblings
+        metas = [("a0", "note", "n1"), ("a0", "num", "2"), ("a0", "note", "n3"), ("y0", "operation", "none")]
+        for n in range(1, 5):
+            for k in range(n):
+                for how in "sa":
+                    mk = [["meta", "0.0", "~", mod, h(nm), h(v), 0] for mod, nm, v in metas[:n]]
+                    case(*mk, ["freemeta", "0.0", k, how], ["dupmeta", "0.0", 0, "1.0"], ["freemeta", "0.0", 0, "a"],
+                         setup=[P("0", '<top %s>t</top>' % _NSA, 0, _P_ONLY), P("0", '<top %s>u</top>' % _NSA, 1, _P_ONLY)])
+                    at = [["attr", "0.0", h("a") if i % 2 else "~", h("at%d" % i), h("v%d" % i)] for i in range(n)]
+                    case(["opaq2", "~", "0", h("oq"), h("v"), "~", h("urn:q"), 0], *at, ["freeattr", "0.0", k, how], ["freeattr", "0.0", 0, how],
+                         ["freeattr", "0.0", 0, "a"], setup=[])
+                sib = "".join('<tul %s>%s</tul>' % (_NSA, v) for v in "mnop"[:n])
+                case(["freen", "0.%d" % k], ["freen", "0.0"], setup=[P("0", sib, 0, _P_ONLY)])
+                case(["unlink", "0.%d" % k, 1], ["free", 1], ["freesib", "0.0"], setup=[P("0", sib, 0, _P_ONLY)])
+        case(["dupmeta", "0.0", 0, "2.0"], ["dupmeta", "0.0", 1, "1.0"], ["chgmeta", "0.0", 0, h("toolongnote")], ["chgmeta", "0.0", 1, h("x")],
+             ["chgmeta", "0.0", 0, h("ok")], ["freemeta", "0.0", 1, "s"],
+             setup=[P("0", '<top %s xmlns:a="urn:a" a:note="n" a:num="3">t</top>' % _NSA, 0, _P_ONLY), P("0", '<top %s>u</top>' % _NSA, 1, _P_ONLY),
+                    P("1", '<top %s>w</top>' % _NSA, 2, _P_ONLY)])
+        # anydata / anyxml values of every value type: string representation, copy to another node, free only
+        anys = [["any", "0.0", "~", h("ad"), "s", h("str"), 0, 4], ["any", "0.0", "~", h("ax"), "x", h("<q><r/></q>"), 0, 4],
+                ["any", "0.0", "~", h("ad"), "j", h('{"a:top":"in"}'), 0, 4], ["any", "0.0", "~", h("ad"), "t", 1, 0, 4]]
+        for a in anys:
+            case(a, ["anystr", "0.1"], ["anystr", "2.1"], ["anycopy", "2.1", "0.1"], ["anystr", "2.1"], ["anycopy", "0.1", "2.1"], ["anycopy", "0.1", "~"],
+                 ["anystr", "0.1"], ["anycopy", "2.1", "~"], ["anycopy", "2.1", "0.1"],
+                 setup=[P("0", '<c %s/>' % _NSA, 0, _P_ONLY), P("0", '<top %s>in</top>' % _NSA, 1, _P_ONLY),
+                        P("0", '<c %s><ad><x/></ad></c>' % _NSA, 2, _P_ONLY)])
         # callbacks that fail at every position: lyd_merge_module (with and without DESTRUCT: the source is spent on failure
         # too, or untouched), lyd_diff_apply_module, lyd_diff_merge_module
         for opts in (0, _MERGE_DESTRUCT, _MERGE_DESTRUCT | _MERGE_DEFAULTS):
@@ -1184,6 +1288,8 @@ class Ownership:
                 tag = "parse-multi-error-syntax-leak"
             elif kcmd == "parsep" and not kerr:
                 tag = "parse-parent-nothing-parsed-implicit-leak"
+            elif kcmd == "print" and kerr and kerr.startswith("internal-error") and "printer-json" in kerr:
+                tag = "print-json-fail-open-set-leak"
             return (tag, "%s block(s) allocated from command %s (%s) on are never freed; %s" % (k, kidx, kcmd, parts[-1]))
         if (du0, dr0, du1, dr1) != ("0", "0", "0", "0"):
             return ("dict-delta", "dictionary strings/references left after everything was freed: " + parts[-1])
